@@ -309,6 +309,33 @@ def engine_agreement(ctx, rep):
         rep.analysed[f'engine-agreement[{fs}]'] = f'{n} hand-written function bodies compiled by rustc all seen by astq; {gen} macro-generated bodies (serde derive, truncated_type!, lazy_format!) exist only in MIR'
         if missing:
             raise Incomplete(f'engine disagreement [{fs}]: rustc compiled function(s) the syntax evaluator did not see: {missing[:5]}')
+        # emission-site reconciliation (DESIGN 2.3): every `io::Write::write_fmt` / `fmt::Write::write_fmt` call rustc
+        # resolved in hand-written code of the backends is an emission site of the syntax evaluator at the same file:line
+        # (with multiplicity).  lazy_format! expands to a write_fmt inside a Display impl; the evaluator models it as a value.
+        import collections
+        a_sites = collections.Counter()
+        for f in ctx.astq['functions']:
+            for s in f.get('sites', []):
+                if s.get('macro') in ('write', 'writeln'):
+                    a_sites[(f['file'], s['fmt']['line'])] += 1
+        m_sites = collections.Counter()
+        for b in bodies:
+            if b.get('derived') or not str(b.get('file', '')).startswith('core/src/language/'):
+                continue
+            for cl in b['calls']:
+                ck = cl.get('ckey') or ''
+                if not ck.endswith('write_fmt'):
+                    continue
+                macs = cl.get('macros') or []
+                if 'lazy_format' in macs or 'Error' in macs:
+                    continue
+                m_sites[(cl['file'], cl['line'])] += 1
+        lost = {f'{k[0]}:{k[1]}': (v, a_sites.get(k, 0)) for k, v in m_sites.items() if a_sites.get(k, 0) < v}
+        rep.analysed[f'emission-sites[{fs}]'] = (f'{sum(m_sites.values())} write_fmt calls resolved by rustc in core/src/language all matched by '
+                                                 f'{sum(a_sites[k] for k in m_sites)} emission sites of the syntax evaluator at the same file:line')
+        if lost:
+            raise Incomplete(f'engine disagreement [{fs}]: write_fmt call(s) compiled by rustc that the syntax evaluator did not model as emission sites '
+                             f'(file:line → (mir, astq)): {dict(list(lost.items())[:5])}')
 
 
 def finish(rep, seed=0):
